@@ -269,10 +269,11 @@ def run_stage(stage, seed, tier, outdir, only_case=None):
 # known findings
 
 def load_findings():
+    out = []
     p = os.path.join(VERIF, "known_findings.json")
-    if not os.path.exists(p):
-        return []
-    return json.load(open(p))["findings"]
+    if os.path.exists(p):
+        out += json.load(open(p))["findings"]
+    return out
 
 
 def match_finding(findings, prop, key):
